@@ -47,6 +47,30 @@ func vmDecodeOn(b []byte) c15res {
 	return r
 }
 
+// limitedWriter accepts n bytes and fails from then on (a closed pipe, a full disk).
+type limitedWriter struct{ n int }
+
+func (w *limitedWriter) Write(p []byte) (int, error) {
+	if len(p) > w.n {
+		k := w.n
+		w.n = 0
+		return k, fmt.Errorf("write: no space left")
+	}
+	w.n -= len(p)
+	return len(p), nil
+}
+
+// parseAllFailingWriterOn lists into a writer supplied by the caller that fails after a few bytes: a failed write may
+// or may not end the listing, but it must not turn malformed code behind that point into a success.
+func parseAllFailingWriterOn(b []byte) c15res {
+	var r c15res
+	r.pv, r.stack = vk.Guard(func() {
+		_, err := vm.NewParseHandler().WithDefaultHandlers().WithWriter(&limitedWriter{n: len(b) % 7}).ParseAll(b)
+		r.err = err != nil
+	})
+	return r
+}
+
 // present x three ways: exact capacity, and as the prefix of a larger buffer with two different fills.
 func presentations(x []byte, scratchA, scratchB []byte) (exact, a, b []byte) {
 	exact = make([]byte, len(x))
@@ -88,7 +112,7 @@ func checkC15(x []byte, sc *c15scratch, c vk.Recorder, key string, runVM bool) {
 	for _, api := range []struct {
 		name string
 		f    func([]byte) c15res
-	}{{"ParseAll", parseAllOn}, {"vm.Parse*", vmDecodeOn}} {
+	}{{"ParseAll", parseAllOn}, {"vm.Parse*", vmDecodeOn}, {"ParseAll(writer that fails)", parseAllFailingWriterOn}} {
 		re := api.f(exact)
 		if re.pv != nil {
 			report(api.name+":"+vk.PanicSig(re.pv, re.stack)+":"+class, fmt.Sprintf("%s panics (%v) on %s input (exact-capacity slice)", api.name, re.pv, class))
